@@ -267,6 +267,11 @@ func checkC03(c *Ctx, r *Report) {
 	c03NameBuffers(c, r, "C03.R1.name-buffers")
 	borrow(c, r, c04R3, "C04.R3.pointer-source", "C03.R1.pointer-written", 1, "the compression pointer is written exactly when a pointer target was found (pointer != -1, offset 0 included)", nil, "a name whose suffix was first written at offset 0 of the buffer loses that suffix: it packs as the labels before it followed by the root")
 	fqdnTrailingRun(c, r, "C03.R4.fqdn-trailing-run")
+	dddDigits(c, r, "C03.R2.ddd-digits")
+	withNames := typesWithNames(c)
+	borrow(c, r, c01R1, "C01.R1.pack-seq", "C03.R3.name-pack-errors", 28, "the pack method of every type with a domain name returns the name packer's error", func(k string) bool { return withNames[k] }, "a name that is not fully qualified, has an empty or over-long label or is over 255 octets is emitted in this record type instead of being refused")
+	r.rule("C03.R4.label-scan", 2, "the backward scan over the backslashes before a dot can reach index 0")
+	backslashScanReachesZero(c, r, "C03.R4.label-scan", []string{"NextLabel", "PrevLabel"}, "the label splitting of the text form disagrees with the wire labels for names that start with a backslash: label counts, RRSIG.Labels and the compression search of Len() are off by one label")
 }
 
 func c03R2(c *Ctx, r *Report) {
